@@ -113,10 +113,11 @@ def origin(annotation: tp.Any) -> tp.Any:
     # Unwrap optional/classvar
     if isclassvartype(actual):
         a = args(actual)
-        actual = a[0] if a else actual
+        # (The qualifier may wrap a NewType in turn.)
+        actual = resolve_supertype(a[0]) if a else actual
 
     if istypealiastype(actual):
-        actual = actual.__value__
+        actual = resolve_supertype(actual.__value__)
 
     actual = tp.get_origin(actual) or actual
 
